@@ -105,7 +105,7 @@ __CPROVER_assigns();
 
 extern bool g_present;            /* the looked-up name is a key of `named` */
 extern ArgVec* g_vals;            /* its vector (the distinguished entry) */
-extern const vstr C17_empty_string;   /* Arguments::empty_string */
+extern vstr C17_empty_string;         /* Arguments::empty_string (initialised by the harness to a valid empty string) */
 extern ArgVec C17_empty_vec;          /* the function-local static of get_values_multi (hoisted; never modified) */
 
 /* std::unordered_map::at(key): reference to the mapped value, std::out_of_range if there is no such element.
@@ -121,6 +121,12 @@ static inline void C17_vec_at(ArgText** out, ArgVec* v, size_t pos)
   if (pos >= v->size) { verif_exc = EXC_out_of_range; *out = 0; return; }
   *out = &v->data[pos];
 }
+/* the std::vector a get_multi returns: only its length and one ghost element (index g_nj) are modelled */
+typedef struct { size_t size; } C17_outvec;
+extern bool g_out_written; extern uint64_t g_out_val; extern const vstr* g_out_ptr;
+#define C17_out_emplace_back(ret, v) do { if ((ret)->size == g_nj) { g_out_written = 1; g_out_val = (uint64_t)C17_BITS(v); } (ret)->size++; } while (0)
+#define C17_out_emplace_back_str(ret, p) do { if ((ret)->size == g_nj) { g_out_written = 1; g_out_ptr = (p); } (ret)->size++; } while (0)
+
 /* std::optional<T> */
 #define C17_OPTIONAL(T) struct { bool has_value; T value; }
 
